@@ -554,6 +554,13 @@ def main():
         assumptions=cfg.get('assumptions', []),
         wall_s=round(time.time() - t_start, 1), violations=len(violations),
     )
+    # optional per-property hook: extra coverage keys computed from the driver counters of this run
+    # (e.g. 'programs' / 'disagreements_checked' of a translation_validation level)
+    if callable(cfg.get('extra_coverage')):
+        try:
+            ev['coverage'].update(cfg['extra_coverage'](stats, ev['coverage']) or {})
+        except Exception as e:  # never let a reporting hook break the check
+            ev['coverage']['extra_coverage_error'] = repr(e)
     if not a.no_evidence and not BIN_SUFFIX:
         json.dump(ev, open(os.path.join(ROOT, 'evidence', pid + '.json'), 'w'), indent=1)
 
